@@ -320,6 +320,8 @@ impl Runnable for Cfg {
             obs.class_if(self.l1, "l1_distance");
             obs.class_if(self.n_runs > 1, "several_restarts");
         }
+        obs.class_if(crate::BOUNDARY_SEEDS.contains(&self.rng_seed) && !matches!(self.mode, Mode::Defaults | Mode::GmmDefaults), "boundary_rng_seed");
+        obs.class_if(self.rng_seed == 0 && !matches!(self.mode, Mode::Defaults | Mode::GmmDefaults), "rng_seed_zero");
         obs.class_if(self.many, "many_components_k_over_100");
         obs.class_if(self.many && self.is_gmm(), "gmm_many_components");
         obs.class_if(
@@ -374,7 +376,7 @@ fn regular(tier: Tier) -> impl Strategy<Value = Cfg> {
     let init = prop_oneof![Just(Init::Random), Just(Init::PlusPlus), Just(Init::Precomputed)];
     (
         (mode, shape, init, any::<bool>()),
-        (any::<u64>(), any::<u64>()),
+        (any::<u64>(), crate::seed_strategy()),
         (any::<u16>(), 1usize..=6, 2usize..=8, 0u8..8),
         (1usize..=3, 2u64..=25, 2u8..=6, 2usize..=6),
     )
@@ -415,7 +417,7 @@ fn many_components() -> impl Strategy<Value = Cfg> {
         2 => Just(Mode::Fit),
     ];
     let init = prop_oneof![Just(Init::Random), Just(Init::PlusPlus)];
-    (mode, init, any::<u64>(), any::<u64>(), any::<bool>(), 0usize..=120, 2usize..=3, 2u64..=3).prop_map(
+    (mode, init, any::<u64>(), crate::seed_strategy(), any::<bool>(), 0usize..=120, 2usize..=3, 2u64..=3).prop_map(
         |(mode, init, data_seed, rng_seed, big, extra, p, max_iter)| Cfg {
             mode,
             shape: Shape::Blobs,
@@ -472,4 +474,30 @@ pub fn threshold_cases() -> Vec<Cfg> {
         // the last size at which the threshold is not crossed, for contrast
         mk(Mode::GmmKMeans, Init::PlusPlus, 100, 220, 2, 8),
     ]
+}
+
+/// Every boundary seed through K-means (Random init) and the randomly initialised mixture, in every run.
+pub fn boundary_seed_cases() -> Vec<Cfg> {
+    let mut v = vec![];
+    for (i, &seed) in crate::BOUNDARY_SEEDS.iter().enumerate() {
+        for mode in [Mode::Fit, Mode::GmmRandom] {
+            v.push(Cfg {
+                mode,
+                shape: Shape::Blobs,
+                data_seed: 0xb0d0 + i as u64,
+                rng_seed: seed,
+                n: 2000,
+                p: 2,
+                k: 3,
+                init: if i % 2 == 0 { Init::Random } else { Init::PlusPlus },
+                l1: false,
+                n_runs: 1,
+                max_iter: if mode == Mode::Fit { 5 } else { 60 },
+                tol_exp: 3,
+                batches: 2,
+                many: false,
+            });
+        }
+    }
+    v
 }
